@@ -152,6 +152,11 @@ class MultipartDecoder:
             % (LINE_BREAK, re.escape(boundary), LINE_BREAK, LINE_BREAK),
             re.MULTILINE,
         )
+        # A boundary line that is still open at the end of the buffer: it may
+        # yet continue as "--", as trailing whitespace or with its line break.
+        self.open_boundary_re = re.compile(
+            rb"%s--%s(?:-|[^\S\n\r]*)\Z" % (LINE_BREAK, re.escape(boundary))
+        )
 
     def last_newline(self) -> int:
         try:
@@ -231,7 +236,15 @@ class MultipartDecoder:
                     data_length = match.start()
                     del_index = match.end()
                 else:
-                    data_length = del_index = self.last_newline()
+                    # "--boundary" occurs in the data without being a boundary
+                    # line. Only a boundary line still open at the end of the
+                    # buffer must be kept back, not everything after the last
+                    # line break (that would buffer the rest of the part).
+                    open_match = self.open_boundary_re.search(self.buffer)
+                    if open_match is not None:
+                        data_length = del_index = open_match.start()
+                    else:
+                        data_length = del_index = self.partial_boundary_start()
                 more_data = match is None
 
             data = bytes(self.buffer[:data_length])
